@@ -201,6 +201,14 @@ func ruleFormulas(w *World, r *Report, pfx string) {
 			if p.Exit != "return" || bad != "" {
 				return
 			}
+			onPath := 0
+			defer func() {
+				// every frame of a live bar prints a value: a path without the producer is one that
+				// carries the frozen (completed / aborted) state
+				if bad == "" && onPath == 0 && !p.hasBool(-1, true, loadOf(tStat, "Completed")) && !p.hasBool(-1, true, loadOf(tStat, "Aborted")) {
+					bad = "a path of a live bar returns without handing a value to the text producer (" + pathExitPos(w, p) + "): the decorator prints an empty text"
+				}
+			}()
 			for _, ev := range p.Events {
 				c, ok := ev.In.(*ssa.Call)
 				if !ok || c.Call.IsInvoke() || c.Call.StaticCallee() != nil || len(c.Call.Args) != 1 {
@@ -216,6 +224,7 @@ func ruleFormulas(w *World, r *Report, pfx string) {
 					continue
 				}
 				nProd++
+				onPath++
 				arg := p.val(ev, c.Call.Args[0])
 				m, ok := w.normalise(p, arg, 0)
 				if !ok {
@@ -523,6 +532,15 @@ func ruleTermSize(w *World, r *Report, pfx string) {
 			return // the error path
 		}
 		saw = true
+		// the size is returned on the path where the query succeeded, with a nil error
+		errT := types.Universe.Lookup("error").Type()
+		isErrV := func(v Val) bool {
+			_, isConst := v.V.(*ssa.Const)
+			return !isConst && types.Identical(v.V.Type(), errT)
+		}
+		if !p.hasCmp(-1, token.EQL, isErrV, isNilVal) || !isNilConst(p.stripR(p.Ret[2]).V) {
+			bad = "the terminal size is returned on a path that does not carry `err == nil` of the query (or with a non-nil error): a successful query reports the failure values and a failed one dereferences no result"
+		}
 		if !((a == "Col" && b == "Row") || (a == "Right-Left" && b == "Bottom-Top")) {
 			bad = fmt.Sprintf("GetSize returns (%s, %s) as (width, height): columns and rows are confused", orStr(a, "?"), orStr(b, "?"))
 		}
@@ -1050,4 +1068,1156 @@ func ruleWidthClamp(w *World, r *Report, pfx string) {
 		}
 	})
 	r.Check(bad == "" && n > 0, rule, "internal.CheckRequestedWidth", w.pos(fn.Pos()), "min(requested, available) for a usable request", orStr(bad, "no returning path"))
+}
+
+// ruleTipCounted (W-TIPCOUNT): in bFiller.Fill a tip frame whose bytes are handed to the writer has been
+// counted: on every path, between taking a frame out of the frame slice and reading its bytes
+// for the flush, the cell counter was advanced by that frame's width - or the variable was reset
+// to the zero component. (W-BOUND demands that the increment is guarded by the space that is
+// left; this is the other half: the not-counted branch must not write the frame anyway, which
+// is the wide-tip overflow again.)
+func ruleTipCounted(w *World, r *Report, pfx string) {
+	rule := pfx + ".W-TIPCOUNT"
+	fn := w.Func("mpb.(*bFiller).Fill")
+	if fn == nil {
+		r.Unresolved("anchor", "bFiller.Fill", "not found")
+		return
+	}
+	// the component type, by shape: a named struct of the package with an integer width and a byte slice
+	tComp, iWidth, iBytes := "", -1, -1
+	sc := w.Mpb.Pkg.Scope()
+	for _, name := range sc.Names() {
+		tn, ok := sc.Lookup(name).(*types.TypeName)
+		if !ok {
+			continue
+		}
+		st, ok := tn.Type().Underlying().(*types.Struct)
+		if !ok || st.NumFields() != 2 {
+			continue
+		}
+		wi, bi := -1, -1
+		for i := 0; i < 2; i++ {
+			switch t := st.Field(i).Type().Underlying().(type) {
+			case *types.Basic:
+				if t.Kind() == types.Int {
+					wi = i
+				}
+			case *types.Slice:
+				if b, ok := t.Elem().Underlying().(*types.Basic); ok && b.Kind() == types.Byte {
+					bi = i
+				}
+			}
+		}
+		if wi >= 0 && bi >= 0 {
+			tComp, iWidth, iBytes = typeName(tn.Type()), wi, bi
+		}
+	}
+	if tComp == "" {
+		r.Unresolved("anchor", "component type", "no struct {width int; bytes []byte} in the package")
+		return
+	}
+	type okey struct {
+		v ssa.Value
+		f *Frame
+	}
+	bad, seen := "", 0
+	var wit []string
+	_, over := w.enumPaths(fn, pathOpts{InlineDepth: 2, Inline: w.helperInline(fn)}, func(p *Path) {
+		if bad != "" || p.Exit != "return" {
+			return
+		}
+		content := map[okey]*okey{} // local component variable -> frame origin it holds (nil: zero / unknown)
+		counted := map[okey]bool{}
+		// origin of a component-typed value: a whole-struct load out of a slice element
+		var originOf func(v Val, depth int) *okey
+		originOf = func(v Val, depth int) *okey {
+			if depth > 6 {
+				return nil
+			}
+			v = p.R(v)
+			ld, ok := v.V.(*ssa.UnOp)
+			if !ok || ld.Op != token.MUL {
+				return nil
+			}
+			addr := p.R(Val{ld.X, v.F, v.E})
+			switch a := addr.V.(type) {
+			case *ssa.IndexAddr:
+				if _, isSlice := a.X.Type().Underlying().(*types.Slice); isSlice && typeName(ld.Type()) == tComp {
+					return &okey{ld, v.F}
+				}
+			case *ssa.Alloc:
+				return content[okey{a, addr.F}]
+			}
+			return nil
+		}
+		// the component a field read belongs to
+		fieldRead := func(ev Event) (*okey, int) {
+			switch x := ev.In.(type) {
+			case *ssa.Field:
+				if typeName(x.X.Type()) == tComp {
+					return originOf(Val{x.X, ev.F, ev.E}, 0), x.Field
+				}
+			case *ssa.UnOp:
+				if x.Op != token.MUL {
+					return nil, -1
+				}
+				if fa, ok := x.X.(*ssa.FieldAddr); ok && typeName(fa.X.Type()) == tComp {
+					base := p.R(Val{fa.X, ev.F, ev.E})
+					if al, ok := base.V.(*ssa.Alloc); ok {
+						return content[okey{al, base.F}], fa.Field
+					}
+				}
+			}
+			return nil, -1
+		}
+		widthReads := map[okey]*okey{} // the value of a width read -> its component
+		for _, ev := range p.Events {
+			switch x := ev.In.(type) {
+			case *ssa.Store:
+				addr := p.val(ev, x.Addr)
+				if al, ok := addr.V.(*ssa.Alloc); ok && typeName(x.Val.Type()) == tComp {
+					content[okey{al, addr.F}] = originOf(Val{x.Val, ev.F, ev.E}, 0)
+				}
+			case *ssa.BinOp:
+				if x.Op == token.ADD {
+					for _, o := range []ssa.Value{x.X, x.Y} {
+						ov := p.val(ev, o)
+						if c := widthReads[okey{ov.V, ov.F}]; c != nil {
+							counted[*c] = true
+						}
+					}
+				}
+			}
+			if c, f := fieldRead(ev); c != nil {
+				v, _ := ev.In.(ssa.Value)
+				switch f {
+				case iWidth:
+					widthReads[okey{v, ev.F}] = c
+				case iBytes:
+					seen++
+					if !counted[*c] {
+						bad = "on a path the bytes of a tip frame are taken for writing (" + w.instrPos(ev.In) + ") although the cell counter was not advanced by its width: a frame that did not fit is written anyway"
+						wit = p.describe()
+					}
+				}
+			}
+		}
+	})
+	if over {
+		r.Undecided(rule, "tip frame in bFiller.Fill", w.pos(fn.Pos()), "path cap reached")
+		return
+	}
+	if seen == 0 && bad == "" {
+		r.Undecided(rule, "tip frame in bFiller.Fill", w.pos(fn.Pos()), "no path on which a frame taken out of the frame slice is written was identified")
+		return
+	}
+	r.Check(bad == "", rule, "tip frame in bFiller.Fill", w.pos(fn.Pos()), "written only when counted", bad, wit...)
+}
+
+// linear form over the atoms p (a parameter) and p/k: coefficients by atom name, constant under "".
+type linForm map[string]int64
+
+func (a linForm) add(b linForm, sign int64) linForm {
+	out := linForm{}
+	for k, v := range a {
+		out[k] += v
+	}
+	for k, v := range b {
+		out[k] += sign * v
+	}
+	for k, v := range out {
+		if v == 0 {
+			delete(out, k)
+		}
+	}
+	return out
+}
+
+// linOf: v as a linear form in the parameter par; p%k is rewritten to p - k*(p/k) (the division identity).
+func linOf(v ssa.Value, par *ssa.Parameter, depth int) (linForm, bool) {
+	if depth > 8 {
+		return nil, false
+	}
+	if v == ssa.Value(par) {
+		return linForm{"p": 1}, true
+	}
+	if k, ok := constInt(v); ok {
+		if k == 0 {
+			return linForm{}, true
+		}
+		return linForm{"": k}, true
+	}
+	switch x := v.(type) {
+	case *ssa.Phi:
+		// all edges agree
+		var first linForm
+		for i, e := range x.Edges {
+			f, ok := linOf(e, par, depth+1)
+			if !ok {
+				return nil, false
+			}
+			if i == 0 {
+				first = f
+			} else if len(first.add(f, -1)) != 0 {
+				return nil, false
+			}
+		}
+		return first, first != nil
+	case *ssa.BinOp:
+		switch x.Op {
+		case token.ADD, token.SUB:
+			a, ok1 := linOf(x.X, par, depth+1)
+			b, ok2 := linOf(x.Y, par, depth+1)
+			if !ok1 || !ok2 {
+				return nil, false
+			}
+			if x.Op == token.ADD {
+				return a.add(b, 1), true
+			}
+			return a.add(b, -1), true
+		case token.QUO, token.REM:
+			k, ok := constInt(x.Y)
+			if !ok || k <= 0 || x.X != ssa.Value(par) {
+				return nil, false
+			}
+			q := fmt.Sprintf("p/%d", k)
+			if x.Op == token.QUO {
+				return linForm{q: 1}, true
+			}
+			return linForm{"p": 1, q: -k}, true
+		case token.MUL:
+			if k, ok := constInt(x.Y); ok {
+				a, ok := linOf(x.X, par, depth+1)
+				if !ok {
+					return nil, false
+				}
+				return linForm{}.add(a, k), true
+			}
+			if k, ok := constInt(x.X); ok {
+				a, ok := linOf(x.Y, par, depth+1)
+				if !ok {
+					return nil, false
+				}
+				return linForm{}.add(a, k), true
+			}
+		case token.SHR:
+			if k, ok := constInt(x.Y); ok && k == 1 && x.X == ssa.Value(par) {
+				return linForm{"p/2": 1}, true
+			}
+		case token.AND:
+			if k, ok := constInt(x.Y); ok && k == 1 && x.X == ssa.Value(par) {
+				return linForm{"p": 1, "p/2": -2}, true
+			}
+		}
+	}
+	return nil, false
+}
+
+// ruleSpinnerBody (W-SPIN): the spinner body occupies exactly the width allotted to it.
+//  (a) Fill writes position(meta(frame), width - frameWidth), where frameWidth is the display width of
+//      that same frame and width the checked requested width;
+//  (b) every position function stored by Build returns the frame once plus runs of single spaces
+//      whose counts add up to the pad it is given (p/2 + p/2 + p%2 == p by the division identity);
+//  (c) Build stores a position function on every path (a nil function panics at the first render).
+func ruleSpinnerBody(w *World, r *Report, pfx string) {
+	rule := pfx + ".W-SPIN"
+	fill := w.spinnerFill()
+	if fill == nil {
+		r.Unresolved("anchor", "spinner filler's Fill", "no Fill method on a struct with a func(string, int) string field")
+		return
+	}
+	// (a)
+	bad, saw := "", false
+	w.enumPaths(fill, pathOpts{InlineDepth: 2, Inline: w.helperInline(fill)}, func(p *Path) {
+		if p.Exit != "return" || bad != "" {
+			return
+		}
+		for _, ev := range p.Events {
+			c, ok := ev.In.(*ssa.Call)
+			if !ok || c.Call.IsInvoke() || c.Call.StaticCallee() != nil || !isPosSig(c.Call.Value.Type()) || len(c.Call.Args) != 2 {
+				continue
+			}
+			saw = true
+			pad := p.val(ev, c.Call.Args[1])
+			sub, ok := pad.V.(*ssa.BinOp)
+			if !ok || sub.Op != token.SUB {
+				bad = "the pad handed to the position function is not `width - frameWidth` (" + w.instrPos(c) + ")"
+				return
+			}
+			wv := p.R(Val{sub.X, pad.F, pad.E})
+			fw := p.R(Val{sub.Y, pad.F, pad.E})
+			wc, ok1 := stripConv(wv.V).(*ssa.Call)
+			fc, ok2 := stripConv(fw.V).(*ssa.Call)
+			if !ok1 || wc.Call.StaticCallee() == nil || wc.Call.StaticCallee().Name() != "CheckRequestedWidth" {
+				bad = "the pad is not computed from the checked requested width"
+				return
+			}
+			if !ok2 || fc.Call.StaticCallee() == nil || fc.Call.StaticCallee().Name() != "StringWidth" {
+				bad = "the pad is not computed from the display width of the frame"
+				return
+			}
+			// the frame written is the frame measured (possibly through the meta function)
+			fr := p.R(Val{c.Call.Args[0], ev.F, ev.E})
+			if mc, ok := fr.V.(*ssa.Call); ok && mc.Call.StaticCallee() == nil && len(mc.Call.Args) == 1 {
+				fr = p.R(Val{mc.Call.Args[0], fr.F, fr.E})
+			}
+			measured := p.R(Val{fc.Call.Args[0], fw.F, fw.E})
+			if fr.V != measured.V {
+				bad = "the frame handed to the position function is not the frame whose width was measured"
+				return
+			}
+			// and its result is what is written
+			written := false
+			for _, ev2 := range p.Events[ev.Idx+1:] {
+				if c2, ok := ev2.In.(*ssa.Call); ok && c2.Call.StaticCallee() != nil && c2.Call.StaticCallee().String() == "io.WriteString" {
+					if p.val(ev2, c2.Call.Args[1]).V == ssa.Value(c) {
+						written = true
+					}
+				}
+			}
+			if !written {
+				bad = "the positioned frame is not what is written"
+			}
+		}
+	})
+	r.Check(bad == "" && saw, rule, "sFiller.Fill body", w.pos(fill.Pos()), "writes position(meta(frame), width - width(frame))", orStr(bad, "no call of the position function found"))
+	// (b) and (c): the position field of the filler's struct
+	recv := fill.Signature.Recv().Type()
+	stT := structOf(recv)
+	if stT == nil {
+		r.Undecided(rule, "spinner filler struct", w.pos(fill.Pos()), "receiver is not a struct pointer")
+		return
+	}
+	owner := typeName(recv)
+	posField := -1
+	for i := 0; i < stT.NumFields(); i++ {
+		if isPosSig(stT.Field(i).Type()) {
+			posField = i
+		}
+	}
+	if posField < 0 {
+		r.Undecided(rule, "position field", w.pos(fill.Pos()), "no func(string, int) string field in "+owner)
+		return
+	}
+	nFn := 0
+	builders := map[*ssa.Function]bool{}
+	for _, fn := range w.ModFns {
+		for _, b := range fn.Blocks {
+			for _, in := range b.Instrs {
+				st, ok := in.(*ssa.Store)
+				if !ok {
+					continue
+				}
+				fa, ok := st.Addr.(*ssa.FieldAddr)
+				if !ok || fa.Field != posField || typeName(fa.X.Type()) != owner {
+					continue
+				}
+				builders[fn] = true
+				var pf *ssa.Function
+				switch x := st.Val.(type) {
+				case *ssa.Function:
+					pf = x
+				case *ssa.MakeClosure:
+					pf, _ = x.Fn.(*ssa.Function)
+				}
+				if pf == nil {
+					r.Undecided(rule, "position function stored in "+fnShort(fn), w.instrPos(st), "not a function literal")
+					continue
+				}
+				nFn++
+				r.Check(spinnerPositionOK(pf) == "", rule, "position function "+fnShort(pf), w.pos(pf.Pos()), "frame once, space runs add up to the pad", spinnerPositionOK(pf))
+			}
+		}
+	}
+	r.Floor(rule, 2, "Fill body and position functions")
+	for fn := range builders {
+		bad := ""
+		w.enumPaths(fn, pathOpts{}, func(p *Path) {
+			if p.Exit != "return" || bad != "" {
+				return
+			}
+			stored := false
+			for _, ev := range p.Events {
+				if st, ok := ev.In.(*ssa.Store); ok {
+					if fa, ok := st.Addr.(*ssa.FieldAddr); ok && fa.Field == posField && typeName(fa.X.Type()) == owner && !isNilConst(st.Val) {
+						stored = true
+					}
+				}
+			}
+			if !stored {
+				bad = "a path through " + fnShort(fn) + " returns a spinner filler without a position function (" + pathExitPos(w, p) + "): the first render calls a nil function"
+			}
+		})
+		r.Check(bad == "", rule, "position set on every path of "+fnShort(fn), w.pos(fn.Pos()), "a position function is stored on every path", bad)
+	}
+}
+
+// spinnerPositionOK: "" when every return of pf is a concatenation of its string parameter (once) and
+// strings.Repeat(<one-column constant>, n_i) with sum n_i == the int parameter.
+func spinnerPositionOK(pf *ssa.Function) string {
+	pf = boundTarget(pf) // a method value: the method itself (receiver first)
+	if len(pf.Params) < 2 {
+		return "unexpected signature"
+	}
+	frame, pad := pf.Params[len(pf.Params)-2], pf.Params[len(pf.Params)-1]
+	nRet := 0
+	for _, b := range pf.Blocks {
+		ret, ok := b.Instrs[len(b.Instrs)-1].(*ssa.Return)
+		if !ok || len(ret.Results) != 1 {
+			continue
+		}
+		nRet++
+		frames := 0
+		sum := linForm{}
+		var walk func(v ssa.Value, depth int) string
+		walk = func(v ssa.Value, depth int) string {
+			if depth > 12 {
+				return "expression too deep"
+			}
+			if v == ssa.Value(frame) {
+				frames++
+				return ""
+			}
+			switch x := v.(type) {
+			case *ssa.Const:
+				if x.Value != nil && x.Value.ExactString() == `""` {
+					return ""
+				}
+				return "a constant string is added to the frame"
+			case *ssa.BinOp:
+				if x.Op == token.ADD {
+					if e := walk(x.X, depth+1); e != "" {
+						return e
+					}
+					return walk(x.Y, depth+1)
+				}
+			case *ssa.Call:
+				if sc := x.Call.StaticCallee(); sc != nil && sc.String() == "strings.Repeat" {
+					c, ok := x.Call.Args[0].(*ssa.Const)
+					if !ok || c.Value == nil || len(constant.StringVal(c.Value)) != 1 {
+						return "the padding unit is not a one-column constant"
+					}
+					f, ok := linOf(x.Call.Args[1], pad, 0)
+					if !ok {
+						return "a padding count outside the linear grammar (p, p/k, p%k, +, -, constants)"
+					}
+					sum = sum.add(f, 1)
+					return ""
+				}
+			}
+			return "the returned string is not built from the frame and strings.Repeat paddings only"
+		}
+		if e := walk(ret.Results[0], 0); e != "" {
+			return e
+		}
+		if frames != 1 {
+			return fmt.Sprintf("the frame occurs %d times in the result", frames)
+		}
+		if d := sum.add(linForm{"p": 1}, -1); len(d) != 0 {
+			return "the padding counts do not add up to the pad width (body wider or narrower than the width allotted to it)"
+		}
+	}
+	if nRet == 0 {
+		return "no return"
+	}
+	return ""
+}
+
+// isPosSig: func(string, int) string - the shape of the spinner's position function.
+func isPosSig(t types.Type) bool {
+	sg, ok := t.Underlying().(*types.Signature)
+	if !ok || sg.Params().Len() != 2 || sg.Results().Len() != 1 {
+		return false
+	}
+	b0, ok0 := sg.Params().At(0).Type().Underlying().(*types.Basic)
+	b1, ok1 := sg.Params().At(1).Type().Underlying().(*types.Basic)
+	br, ok2 := sg.Results().At(0).Type().Underlying().(*types.Basic)
+	return ok0 && ok1 && ok2 && b0.Kind() == types.String && b1.Kind() == types.Int && br.Kind() == types.String
+}
+
+// spinnerFill: the Fill method of the spinner filler, found by shape (its struct carries the
+// position function), so that the type and its fields may be renamed.
+func (w *World) spinnerFill() *ssa.Function {
+	if fn := w.Func("mpb.(*sFiller).Fill"); fn != nil {
+		return fn
+	}
+	for _, fn := range w.ModFns {
+		if fn.Pkg != w.Mpb || fn.Name() != "Fill" || fn.Signature.Recv() == nil || fn.Synthetic != "" {
+			continue
+		}
+		st := structOf(fn.Signature.Recv().Type())
+		if st == nil {
+			continue
+		}
+		for i := 0; i < st.NumFields(); i++ {
+			if isPosSig(st.Field(i).Type()) {
+				return fn
+			}
+		}
+	}
+	return nil
+}
+
+// ruleUserFillerKept (A-USERFILLER): Progress.Add replaces the caller's filler only when it is nil (a nil
+// interface or a nil BarFillerFunc): every store of another value into the filler variable sits
+// on a path that carries `filler == nil` (or `f == nil` for the asserted function value). A
+// replacement on any other path silently draws every bar with the no-op filler.
+func ruleUserFillerKept(w *World, r *Report, pfx string) {
+	rule := pfx + ".A-USERFILLER"
+	add := w.Func("mpb.(*Progress).Add")
+	if add == nil || len(add.Params) < 3 {
+		r.Unresolved("anchor", "Progress.Add", "not found")
+		return
+	}
+	fillerP := ssa.Value(add.Params[2])
+	var cell *ssa.Alloc
+	for _, b := range add.Blocks {
+		for _, in := range b.Instrs {
+			if st, ok := in.(*ssa.Store); ok && st.Val == fillerP {
+				cell, _ = st.Addr.(*ssa.Alloc)
+			}
+		}
+	}
+	bad := ""
+	nPaths := 0
+	_, over := w.enumPaths(add, pathOpts{InlineDepth: 1, Inline: w.helperInline(add)}, func(p *Path) {
+		nPaths++
+		if bad != "" {
+			return
+		}
+		isFiller := func(v Val) bool {
+			if v.V == fillerP || w.origin(v.V) == fillerP {
+				return true
+			}
+			if ld, ok := v.V.(*ssa.UnOp); ok && ld.Op == token.MUL && cell != nil && ld.X == ssa.Value(cell) {
+				return true
+			}
+			// the value asserted out of the filler: f, ok := filler.(BarFillerFunc)
+			if ex, ok := v.V.(*ssa.Extract); ok && ex.Index == 0 {
+				if ta, ok := ex.Tuple.(*ssa.TypeAssert); ok {
+					x := p.R(Val{ta.X, v.F, v.E})
+					if x.V == fillerP || w.origin(x.V) == fillerP {
+						return true
+					}
+					if ld, ok := x.V.(*ssa.UnOp); ok && ld.Op == token.MUL && cell != nil && ld.X == ssa.Value(cell) {
+						return true
+					}
+				}
+			}
+			return false
+		}
+		for _, ev := range p.Events {
+			replaced := false
+			switch x := ev.In.(type) {
+			case *ssa.Store:
+				replaced = cell != nil && x.Addr == ssa.Value(cell) && x.Val != fillerP
+			}
+			if replaced && !p.hasCmp(ev.Idx, token.EQL, isFiller, isNilVal) {
+				bad = "the caller's filler is replaced (" + w.instrPos(ev.In) + ") on a path that does not carry `filler == nil`"
+			}
+		}
+		// without a cell (the variable is not captured): the value handed on is a phi; every
+		// non-parameter edge must come from a block reached under the nil test - checked on the path
+		if cell == nil {
+			for _, ev := range p.Events {
+				mc, ok := ev.In.(*ssa.MakeClosure)
+				if !ok {
+					continue
+				}
+				for _, bnd := range mc.Bindings {
+					if !types.Identical(bnd.Type(), fillerP.Type()) {
+						continue
+					}
+					v := p.val(ev, bnd)
+					if v.V != fillerP && w.origin(v.V) != fillerP && !p.hasCmp(ev.Idx, token.EQL, isFiller, isNilVal) {
+						bad = "the filler handed to the bar constructor is not the caller's on a path that does not carry `filler == nil`"
+					}
+				}
+			}
+		}
+	})
+	if over {
+		r.Undecided(rule, "API:Progress.Add filler kept", w.pos(add.Pos()), "path cap")
+		return
+	}
+	r.Check(bad == "" && nPaths > 0, rule, "API:Progress.Add filler kept", w.pos(add.Pos()), "replaced only when nil", orStr(bad, "no path"))
+}
+
+// ruleIsTerminal (T-ISTERM): the platform probe behind Writer.IsTerminal answers "terminal" exactly
+// when the probing system call succeeded: every return is `err == nil` of the probe's error (or,
+// path by path, true under err == nil and false under err != nil). Inverted, a real terminal is
+// written to like a pipe and a pipe gets cursor movement - and the size of a terminal is never asked.
+func ruleIsTerminal(w *World, r *Report, pfx string) {
+	rule := pfx + ".T-ISTERM"
+	fn := w.Func("cwriter.IsTerminal")
+	if fn == nil {
+		r.Unresolved("anchor", "cwriter.IsTerminal", "not found")
+		return
+	}
+	errT := types.Universe.Lookup("error").Type()
+	isErrV := func(v Val) bool {
+		_, isConst := v.V.(*ssa.Const)
+		return !isConst && types.Identical(v.V.Type(), errT)
+	}
+	bad := ""
+	n := 0
+	w.enumPaths(fn, pathOpts{}, func(p *Path) {
+		if p.Exit != "return" || len(p.Ret) != 1 || bad != "" {
+			return
+		}
+		n++
+		rv := p.stripR(p.Ret[0])
+		if bin, ok := rv.V.(*ssa.BinOp); ok {
+			x, y := p.R(Val{bin.X, rv.F, rv.E}), p.R(Val{bin.Y, rv.F, rv.E})
+			if bin.Op == token.EQL && ((isErrV(x) && isNilVal(y)) || (isErrV(y) && isNilVal(x))) {
+				return
+			}
+			bad = "IsTerminal does not return `err == nil` of the probe"
+			return
+		}
+		if c, ok := rv.V.(*ssa.Const); ok && c.Value != nil {
+			val := constant.BoolVal(c.Value)
+			if val && p.hasCmp(-1, token.EQL, isErrV, isNilVal) {
+				return
+			}
+			if !val && p.hasCmp(-1, token.NEQ, isErrV, isNilVal) {
+				return
+			}
+		}
+		bad = "IsTerminal's answer does not follow the success of the probe"
+	})
+	r.Check(bad == "" && n > 0, rule, "cwriter.IsTerminal", w.pos(fn.Pos()), "terminal iff the probe succeeded", orStr(bad, "no return"))
+}
+
+// ruleIsRunning (G-RUNNING, C14): Bar.IsRunning polls the bar's context: false exactly on the path
+// that received from ctx.Done(), true on the default path. (Shutdown and cancellation are
+// observed by clients through this getter: "every bar stops (IsRunning false)".)
+func ruleIsRunning(w *World, r *Report, pfx string) {
+	rule := pfx + ".G-RUNNING"
+	fn := w.Func("mpb.(*Bar).IsRunning")
+	if fn == nil {
+		r.Unresolved("anchor", "API:Bar.IsRunning", "not found")
+		return
+	}
+	var sel *ssa.Select
+	doneArm := -1
+	for _, op := range w.Comm().byFn[fn] {
+		if op.Kind != "select" {
+			continue
+		}
+		for i, s := range op.States {
+			if s.Dir == types.RecvOnly && s.Class.only("Done(Bar.ctx)") {
+				sel, doneArm = op.Instr.(*ssa.Select), i
+			}
+		}
+	}
+	if sel == nil {
+		r.Violated(rule, "API:Bar.IsRunning", w.pos(fn.Pos()), "IsRunning does not poll the bar's context: it cannot turn false on cancellation")
+		return
+	}
+	bad := ""
+	sawT, sawF := false, false
+	w.enumPaths(fn, pathOpts{}, func(p *Path) {
+		if p.Exit != "return" || len(p.Ret) != 1 || bad != "" {
+			return
+		}
+		bv, ok := constBool(p.stripR(p.Ret[0]).V)
+		if !ok {
+			bad = "IsRunning returns a value that is not decided by the poll alone"
+			return
+		}
+		k := p.armTaken(sel)
+		switch {
+		case k == doneArm && bv:
+			bad = "IsRunning reports a cancelled bar as running"
+		case k != doneArm && !bv:
+			bad = "IsRunning reports a live bar as stopped"
+		case bv:
+			sawT = true
+		default:
+			sawF = true
+		}
+	})
+	if sel.Blocking {
+		bad = orStr(bad, "the poll blocks")
+	}
+	r.Check(bad == "" && sawT && sawF, rule, "API:Bar.IsRunning", w.pos(fn.Pos()), "false iff ctx.Done() is closed", orStr(bad, "a branch is missing"))
+}
+
+// ruleOnFinalDecorations (F-ONFINAL, C03): the on-complete / on-abort wrappers show their decoration
+// exactly in the final state they are named after. For OnComplete, OnCompleteMeta, OnAbort,
+// OnAbortMeta (the Decor method of the wrapper type the constructor returns) and
+// BarFillerOnComplete, BarFillerOnAbort (the filler closure built inside): a path does something
+// of its own (prints the message, applies the meta function, writes the text) iff it carries
+// Statistics.Completed (resp. Aborted) true; every other path only delegates.
+func ruleOnFinalDecorations(w *World, r *Report, pfx string) {
+	rule := pfx + ".F-ONFINAL"
+	specs := []struct{ ctor, flag string }{
+		{"decor.OnComplete", "Completed"}, {"decor.OnCompleteMeta", "Completed"},
+		{"decor.OnAbort", "Aborted"}, {"decor.OnAbortMeta", "Aborted"},
+		{"mpb.BarFillerOnComplete", "Completed"}, {"mpb.BarFillerOnAbort", "Aborted"},
+	}
+	hasStatParam := func(f *ssa.Function) bool {
+		for _, p := range f.Params {
+			if typeName(p.Type()) == tStat {
+				return true
+			}
+		}
+		return false
+	}
+	for _, sp := range specs {
+		ctor := w.Func(sp.ctor)
+		if ctor == nil {
+			r.Unresolved("anchor", "API:"+sp.ctor, "not found")
+			continue
+		}
+		// candidates
+		var cands []*ssa.Function
+		made := map[string]bool{}
+		for f := range w.unit(ctor) {
+			for _, b := range f.Blocks {
+				for _, in := range b.Instrs {
+					if mi, ok := in.(*ssa.MakeInterface); ok {
+						made[typeName(mi.X.Type())] = true
+					}
+				}
+			}
+		}
+		for _, f := range w.ModFns {
+			if f.Synthetic != "" || !hasStatParam(f) {
+				continue
+			}
+			if f.Signature.Recv() != nil && f.Name() == "Decor" && made[typeName(f.Signature.Recv().Type())] {
+				cands = append(cands, f)
+			}
+			if f.Parent() != nil && rootFn(f) == ctor {
+				cands = append(cands, f)
+			}
+		}
+		if len(cands) == 0 {
+			r.Undecided(rule, "API:"+sp.ctor, w.pos(ctor.Pos()), "the function that draws the wrapped decoration was not found")
+			continue
+		}
+		for _, f := range cands {
+			bad := ""
+			sawOwn, sawPlain := false, false
+			_, over := w.enumPaths(f, pathOpts{InlineDepth: 1, Inline: w.helperInline(f)}, func(p *Path) {
+				if p.Exit != "return" || bad != "" {
+					return
+				}
+				own := false
+				for _, ev := range p.Events {
+					c, ok := ev.In.(*ssa.Call)
+					if !ok {
+						continue
+					}
+					if _, isB := c.Call.Value.(*ssa.Builtin); isB {
+						continue
+					}
+					if c.Call.IsInvoke() && (c.Call.Method.Name() == "Decor" || c.Call.Method.Name() == "Fill") {
+						continue
+					}
+					own = true
+				}
+				t := p.hasBool(-1, true, loadOf(tStat, sp.flag))
+				fl := p.hasBool(-1, false, loadOf(tStat, sp.flag))
+				switch {
+				case own && !t:
+					bad = "the " + sp.flag + " decoration is shown on a path that does not carry Statistics." + sp.flag
+				case !own && !fl:
+					bad = "the wrapped decorator / filler is shown unchanged on a path that does not carry !Statistics." + sp.flag
+				case own:
+					sawOwn = true
+				default:
+					sawPlain = true
+				}
+			})
+			if over {
+				r.Undecided(rule, sp.ctor+": "+fnShort(f), w.pos(f.Pos()), "path cap")
+				continue
+			}
+			r.Check(bad == "" && sawOwn && sawPlain, rule, sp.ctor+": "+fnShort(f), w.pos(f.Pos()), "own decoration iff Statistics."+sp.flag, orStr(bad, "one of the two behaviours is missing"))
+		}
+	}
+	r.Floor(rule, 4, "on-complete / on-abort wrappers and filler options")
+}
+
+// ruleDefaultFormat (V-DEFAULTFMT, C20): the documented default format of the counter, percentage and
+// speed decorators is installed exactly when the caller passed "": in every decor function that
+// tests its format against "" and stores a constant format into the variable, each path that
+// carries `format == ""` stores a non-empty constant, each path that carries `format != ""`
+// stores nothing, and no path gets past the test without carrying one of the two (a test folded
+// to a constant). An empty format otherwise reaches fmt.Sprintf and the decorator prints
+// "%!(EXTRA ...)" instead of the value; a default forced over the caller's format ignores the
+// verb and precision that were asked for.
+func ruleDefaultFormat(w *World, r *Report, pfx string) {
+	rule := pfx + ".V-DEFAULTFMT"
+	isEmpty := func(v Val) bool {
+		c, ok := v.V.(*ssa.Const)
+		return ok && c.Value != nil && c.Value.Kind() == constant.String && constant.StringVal(c.Value) == ""
+	}
+	isStrCell := func(a ssa.Value) bool {
+		pt, ok := a.Type().Underlying().(*types.Pointer)
+		if !ok {
+			return false
+		}
+		b, ok := pt.Elem().Underlying().(*types.Basic)
+		if !ok || b.Kind() != types.String {
+			return false
+		}
+		switch a.(type) {
+		case *ssa.FreeVar, *ssa.Alloc:
+			return true
+		}
+		return false
+	}
+	n := 0
+	for _, fn := range w.ModFns {
+		if fn.Pkg != w.Decor || fn.Synthetic != "" {
+			continue
+		}
+		// the idiom: a comparison of a loaded string cell with "" and a constant store into that cell
+		cells := map[ssa.Value]bool{}
+		var tests []*ssa.BinOp
+		for _, b := range fn.Blocks {
+			for _, in := range b.Instrs {
+				bin, ok := in.(*ssa.BinOp)
+				if !ok || (bin.Op != token.EQL && bin.Op != token.NEQ) {
+					continue
+				}
+				for _, pr := range [][2]ssa.Value{{bin.X, bin.Y}, {bin.Y, bin.X}} {
+					if !isEmpty(Val{V: pr[1]}) {
+						continue
+					}
+					if ld, ok := pr[0].(*ssa.UnOp); ok && ld.Op == token.MUL && isStrCell(ld.X) {
+						cells[ld.X] = true
+						tests = append(tests, bin)
+					}
+				}
+			}
+		}
+		hasStore := false
+		for _, b := range fn.Blocks {
+			for _, in := range b.Instrs {
+				if st, ok := in.(*ssa.Store); ok && cells[st.Addr] {
+					if _, isK := st.Val.(*ssa.Const); isK {
+						hasStore = true
+					}
+				}
+			}
+		}
+		if len(tests) == 0 || !hasStore {
+			continue
+		}
+		n++
+		isFmt := func(v Val) bool {
+			ld, ok := v.V.(*ssa.UnOp)
+			return ok && ld.Op == token.MUL && cells[ld.X]
+		}
+		bad := ""
+		_, over := w.enumPaths(fn, pathOpts{Inline: func(ssa.CallInstruction, *ssa.Function) bool { return false }}, func(p *Path) {
+			if p.Exit != "return" || bad != "" {
+				return
+			}
+			tested, stored := false, false
+			for _, ev := range p.Events {
+				switch x := ev.In.(type) {
+				case *ssa.BinOp:
+					for _, t := range tests {
+						if x == t {
+							tested = true
+						}
+					}
+				case *ssa.Store:
+					if _, spill := x.Val.(*ssa.Parameter); spill {
+						continue // the parameter moved into its cell at entry
+					}
+					if cells[x.Addr] {
+						stored = true
+						if c, ok := x.Val.(*ssa.Const); !ok || isEmpty(Val{V: c}) {
+							bad = "the format variable is overwritten with something else than a non-empty constant default (" + w.instrPos(x) + ")"
+						}
+					}
+				}
+			}
+			if !tested {
+				if stored {
+					bad = "a default format is stored on a path that never tested the caller's format"
+				}
+				// a text producer that captures the format variable is built on this path: the other
+				// paths of this function give it a default, this one does not
+				for _, ev := range p.Events {
+					if mc, ok := ev.In.(*ssa.MakeClosure); ok {
+						for _, bnd := range mc.Bindings {
+							if cells[bnd] {
+								bad = "a producer using the format is built (" + w.instrPos(mc) + ") on a path that never tested the caller's format against \"\""
+							}
+						}
+					}
+				}
+				return
+			}
+			empty := p.hasCmp(-1, token.EQL, isFmt, isEmpty)
+			nonEmpty := p.hasCmp(-1, token.NEQ, isFmt, isEmpty)
+			switch {
+			case !empty && !nonEmpty:
+				bad = "a path gets past the test of the format against \"\" without carrying its outcome (the test is constant)"
+			case empty && !stored:
+				bad = "a path that carries format == \"\" installs no default: fmt.Sprintf gets an empty format"
+			case nonEmpty && stored:
+				bad = "a path that carries format != \"\" overwrites the caller's format with the default"
+			}
+		})
+		if over {
+			r.Undecided(rule, "default format in "+fnShort(fn), w.pos(fn.Pos()), "path cap")
+			continue
+		}
+		r.Check(bad == "", rule, "default format in "+fnShort(fn), w.pos(fn.Pos()), "default installed iff the caller's format is empty", bad)
+	}
+	r.Floor(rule, 3, "counters, percentage and speed constructors")
+}
+
+// ruleNormalizerGuard (V-NORMGUARD, C20): the optional time normaliser of the ETA decorators is called
+// exactly when there is one: every invoke of Normalize sits on a path that carries `normalizer !=
+// nil` for the value it is invoked on (the default is nil: an unguarded call panics in the first
+// frame), and a path that carries `normalizer != nil` does call it.
+func ruleNormalizerGuard(w *World, r *Report, pfx string) {
+	rule := pfx + ".V-NORMGUARD"
+	n := 0
+	for _, fn := range w.ModFns {
+		if fn.Pkg != w.Decor || fn.Synthetic != "" {
+			continue
+		}
+		has := false
+		for _, b := range fn.Blocks {
+			for _, in := range b.Instrs {
+				if c, ok := in.(*ssa.Call); ok && c.Call.IsInvoke() && c.Call.Method.Name() == "Normalize" {
+					has = true
+				}
+			}
+		}
+		if !has {
+			continue
+		}
+		n++
+		bad := ""
+		_, over := w.enumPaths(fn, pathOpts{Inline: func(ssa.CallInstruction, *ssa.Function) bool { return false }}, func(p *Path) {
+			if p.Exit != "return" || bad != "" {
+				return
+			}
+			called := false
+			for _, ev := range p.Events {
+				c, ok := ev.In.(*ssa.Call)
+				if !ok || !c.Call.IsInvoke() || c.Call.Method.Name() != "Normalize" {
+					continue
+				}
+				called = true
+				recv := p.val(ev, c.Call.Value)
+				same := func(v Val) bool { return v.V == recv.V || sameValueExpr(v.V, recv.V, 0) }
+				if !p.hasCmp(ev.Idx, token.NEQ, same, isNilVal) {
+					bad = "Normalize is invoked (" + w.instrPos(c) + ") on a path that does not carry `normalizer != nil`: with the default (no normaliser) the decorator panics"
+				}
+			}
+			if !called {
+				isNorm := func(v Val) bool {
+					return typeName(v.V.Type()) == "decor.TimeNormalizer"
+				}
+				if p.hasCmp(-1, token.NEQ, isNorm, isNilVal) {
+					bad = "a path carries `normalizer != nil` and does not apply the normaliser"
+				}
+			}
+		})
+		if over {
+			r.Undecided(rule, "normaliser in "+fnShort(fn), w.pos(fn.Pos()), "path cap")
+			continue
+		}
+		r.Check(bad == "", rule, "normaliser in "+fnShort(fn), w.pos(fn.Pos()), "called iff non-nil", bad)
+	}
+	r.Floor(rule, 1, "ETA decorators with an optional normaliser")
+}
+
+// ruleAverageSet (V-AVGSET, C20): no estimator is built around a nil moving average. In every decor
+// function, a value of the moving-average interface type that is stored into a decorator field
+// or handed to another decor function is, path by path, neither the nil constant nor a parameter
+// on a path that carries `parameter == nil` (the documented default must have been installed).
+func ruleAverageSet(w *World, r *Report, pfx string) {
+	rule := pfx + ".V-AVGSET"
+	isAvgT := func(t types.Type) bool { return strings.HasSuffix(typeName(t), "ewma.MovingAverage") }
+	n := 0
+	for _, fn := range w.ModFns {
+		if fn.Pkg != w.Decor || fn.Synthetic != "" {
+			continue
+		}
+		uses := false
+		for _, b := range fn.Blocks {
+			for _, in := range b.Instrs {
+				switch x := in.(type) {
+				case *ssa.Store:
+					if _, isF := x.Addr.(*ssa.FieldAddr); isF && isAvgT(x.Val.Type()) {
+						uses = true
+					}
+				case *ssa.Call:
+					if sc := x.Call.StaticCallee(); sc != nil && sc.Pkg == w.Decor {
+						for _, a := range x.Call.Args {
+							if isAvgT(a.Type()) {
+								uses = true
+							}
+						}
+					}
+				}
+			}
+		}
+		if !uses {
+			continue
+		}
+		n++
+		bad := ""
+		_, over := w.enumPaths(fn, pathOpts{Inline: func(ssa.CallInstruction, *ssa.Function) bool { return false }}, func(p *Path) {
+			if p.Exit != "return" || bad != "" {
+				return
+			}
+			check := func(ev Event, v ssa.Value) {
+				rv := p.stripR(p.val(ev, v))
+				if isNilConst(rv.V) {
+					bad = "a nil moving average is used (" + w.instrPos(ev.In) + ") on a path: the first sample or frame panics"
+					return
+				}
+				if par, ok := rv.V.(*ssa.Parameter); ok {
+					if p.hasCmp(ev.Idx, token.EQL, func(x Val) bool { return x.V == ssa.Value(par) }, isNilVal) {
+						bad = "the caller's moving average is used (" + w.instrPos(ev.In) + ") on a path that carries `average == nil`: the documented default is not installed"
+					}
+				}
+			}
+			for _, ev := range p.Events {
+				switch x := ev.In.(type) {
+				case *ssa.Store:
+					if _, isF := x.Addr.(*ssa.FieldAddr); isF && isAvgT(x.Val.Type()) {
+						check(ev, x.Val)
+					}
+				case *ssa.Call:
+					if sc := x.Call.StaticCallee(); sc != nil && sc.Pkg == w.Decor {
+						for _, a := range x.Call.Args {
+							if isAvgT(a.Type()) {
+								check(ev, a)
+							}
+						}
+					}
+				}
+			}
+		})
+		if over {
+			r.Undecided(rule, "moving average in "+fnShort(fn), w.pos(fn.Pos()), "path cap")
+			continue
+		}
+		r.Check(bad == "", rule, "moving average in "+fnShort(fn), w.pos(fn.Pos()), "never nil", bad)
+	}
+	r.Floor(rule, 2, "estimator constructors")
+}
+
+// ruleWindowsClear (W-WINCLEAR, windows build only): clearing the previous frame on a Windows console.
+// clearLines takes the ANSI fallback exactly when the output is no console, uses the console API
+// only after the screen-buffer query succeeded, and moves the cursor up: the row it sets is the
+// queried row minus the line count, clamped at 0.
+func ruleWindowsClear(w *World, r *Report, pfx string) {
+	rule := pfx + ".W-WINCLEAR"
+	if w.GOOS != "windows" {
+		return
+	}
+	fn := w.Func("cwriter.(*Writer).clearLines")
+	if fn == nil || len(fn.Params) < 2 {
+		r.Unresolved("anchor", "cwriter.Writer.clearLines", "not found")
+		return
+	}
+	nP := ssa.Value(fn.Params[1])
+	esc := w.Func("cwriter.(escWriter).ansiCuuAndEd")
+	errT := types.Universe.Lookup("error").Type()
+	isErrV := func(v Val) bool {
+		_, isConst := v.V.(*ssa.Const)
+		return !isConst && types.Identical(v.V.Type(), errT)
+	}
+	isTerm := loadOf("cwriter.Writer", "terminal")
+	isRowAddr := func(a ssa.Value) bool {
+		fa, ok := a.(*ssa.FieldAddr)
+		if !ok {
+			return false
+		}
+		f, ok := fieldOf(fa)
+		return ok && f.Name == "Y" && strings.HasSuffix(f.Owner, "Coord")
+	}
+	bad := ""
+	sawAnsi, sawAPI := false, false
+	_, over := w.enumPaths(fn, pathOpts{}, func(p *Path) {
+		if p.Exit != "return" || bad != "" {
+			return
+		}
+		api, ansi := -1, -1
+		moved, clamped := false, false
+		for _, ev := range p.Events {
+			switch x := ev.In.(type) {
+			case *ssa.Call:
+				if x.Call.StaticCallee() == esc && esc != nil {
+					ansi = ev.Idx
+				}
+				if sc := x.Call.StaticCallee(); sc != nil && sc.Name() == "Call" && strings.Contains(sc.String(), "LazyProc") && api < 0 {
+					api = ev.Idx
+				}
+			case *ssa.Store:
+				if !isRowAddr(x.Addr) {
+					continue
+				}
+				if k, ok := constInt(x.Val); ok && k == 0 {
+					clamped = true
+					continue
+				}
+				if sub, ok := x.Val.(*ssa.BinOp); ok && sub.Op == token.SUB && stripConv(sub.Y) == nP {
+					if ld, ok := sub.X.(*ssa.UnOp); ok && isRowAddr(ld.X) {
+						moved = true
+					}
+				}
+			}
+		}
+		isRow := func(v Val) bool {
+			ld, ok := v.V.(*ssa.UnOp)
+			return ok && ld.Op == token.MUL && isRowAddr(ld.X)
+		}
+		switch {
+		case ansi >= 0 && api >= 0:
+			bad = "a path uses both the escape sequence and the console API"
+		case ansi >= 0:
+			sawAnsi = true
+			if !p.hasBool(ansi, false, isTerm) {
+				bad = "the escape-sequence fallback is taken on a path that does not carry !terminal"
+			}
+		case api >= 0:
+			sawAPI = true
+			if !p.hasBool(api, true, isTerm) {
+				bad = "the console API is used on a path that does not carry terminal"
+			} else if !p.hasCmp(api, token.EQL, isErrV, isNilVal) {
+				bad = "the console API is used on a path that does not carry the success of the screen-buffer query"
+			} else if !moved {
+				bad = "the cursor row set is not the queried row minus the number of lines to clear: the next frame is not drawn over the previous one"
+			} else {
+				// row < 0, row <= 0 and row < 1 all clamp the same rows to the same value
+				neg := p.hasCmp(api, token.LSS, isRow, isConstInt(0)) || p.hasCmp(api, token.LEQ, isRow, isConstInt(0)) || p.hasCmp(api, token.LSS, isRow, isConstInt(1))
+				nonNeg := p.hasCmp(api, token.GEQ, isRow, isConstInt(0)) || p.hasCmp(api, token.GTR, isRow, isConstInt(0)) || p.hasCmp(api, token.GEQ, isRow, isConstInt(1))
+				switch {
+				case neg && !clamped:
+					bad = "a negative cursor row is not clamped to 0"
+				case !neg && !nonNeg:
+					bad = "the cursor row is used without having been compared with 0"
+				case nonNeg && clamped:
+					bad = "a valid cursor row is overwritten with 0"
+				}
+			}
+		default:
+			if !p.hasCmp(-1, token.NEQ, isErrV, isNilVal) {
+				bad = "a path clears nothing and carries no error"
+			}
+		}
+	})
+	if over {
+		r.Undecided(rule, "cwriter.Writer.clearLines", w.pos(fn.Pos()), "path cap")
+		return
+	}
+	r.Check(bad == "" && sawAnsi && sawAPI, rule, "cwriter.Writer.clearLines", w.pos(fn.Pos()), "fallback iff no console; cursor up by n, clamped", orStr(bad, "a branch is missing"))
 }
